@@ -25,7 +25,10 @@ LEVEL_TEXT = ("Partial. Unbounded proof: for every byte string (and start positi
               "eight bytes; and the complete binary XML parser as modelled for C26 (chunk loop, event loop, resource map, "
               "namespaces, attribute records, every string pool lookup) ends on EVERY byte string within fuel linear in its "
               "length; and so does the walk over a resource table as modelled for C28 (table, packages, string pools, type "
-              "chunks, entries). Not proved: termination of the complete DEX parser and of the zip layer; they are run on "
+              "chunks, entries); nested encoded values (arrays and annotations of any announced size and depth: the model of C04) "
+              "are read within (bytes + 1) levels, and the field and method lists of a class_data_item (the model of C05) end "
+              "within (bytes left + 1) passes whatever counts the item announces. Not proved: termination of the complete DEX "
+              "parser (map list, id sections, code items, annotation directories as a whole) and of the zip layer; they are run on "
               "mutated, truncated and crafted inputs under a time limit that grows with the input size (reference "
               "resolution in resource tables is C29).")
 LEVEL_NOTE = ("Trusted: Coq kernel; coq/Misc/TermModel.v as a rendering of ARSCHeader.__init__, DebugInfoItem.__init__ and "
